@@ -39,7 +39,8 @@ SetPermFailed(e) ==
   \* (tied: inputs with one binary value at two precisions - equal rationals, unequal for cty, see the recorded trichotomy finding -
   \*  so how many members the set holds is not judged there; its iteration order still is)
   \cup (IF Has(e, "tied") \/ \A k \in 1..Len(e.results) : e.results[k].ok /\ Len(Elems(e.results[k].val)) = Distinct(e.input) THEN {} ELSE {"C03.SetHoldsDistinctInputs"})
-  \cup (IF \A k \in 1..Len(e.results) : e.results[k].ok => WellFormed(e.results[k].val) THEN {} ELSE {"C06.WellFormed"})
+  \* (tied inputs: the set rightly holds two members that the abstract universe identifies, so "no two equal members" is not judged there)
+  \cup (IF Has(e, "tied") \/ \A k \in 1..Len(e.results) : e.results[k].ok => WellFormed(e.results[k].val) THEN {} ELSE {"C06.WellFormed"})
   \cup (IF \A k \in 1..Len(e.results) : e.results[k].ok =>
             \A i \in 1..Len(e.input) : \E m \in 1..Len(Elems(e.results[k].val)) : AbsEq(Elems(e.results[k].val)[m], e.input[i])
         THEN {} ELSE {"C03.SetHoldsDistinctInputs"})
